@@ -34,6 +34,34 @@ var Metas = map[string]*Meta{
 		Runs:       map[string]int{"quick": 1600, "thorough": 80000},
 		Run:        RunC06,
 	},
+	"C15": {
+		Level: "exploration",
+		Rule: "A run executes four seeded histories (depth <= 12 quick, <= 60 thorough) of Add / Delete / restart (MarshalJSON -> fresh trie -> UnmarshalJSON, history continues on the rebuilt object) with caller-buffer scribbling after calls and a simulator-chosen child order for ForEach, over a swarm of alphabets (2-6 letters incl. 0x00, 0xFF, '\"') and length bounds; after EVERY step the full observation (Has for every string of the bounded universe, the ForEach multiset, Delete's result) is compared with a reference set model. The first 14 runs are the fixed exhaustive sweep: all 14^4 = 38416 histories of depth 4 over 14 operations on {a,b}. " +
+			"distinct_nontrivial counts distinct abstract states (sets M) reached; evaluations counts histories executed.",
+		Assumptions: []string{
+			"the reference model is a direct transcription of the property's definition of M (about 40 lines, no code shared with the implementation)",
+			"Has is observed over the complete bounded universe when it has <= 6000 strings, otherwise over every prefix of every argument extended by every letter",
+			"the trie is not safe for concurrent use and the property does not ask for it: the schedule dimension is the history with restart and aliasing points, not thread interleaving",
+			"map iteration order inside ForEach is chosen by the simulator through the verif-tagged hook trie.SimKeyOrder; verdicts do not depend on the hook being reached",
+		},
+		Components: map[string]any{"real": []string{"biostuff trie (built from /repo's working tree with -tags verif)", "encoding/json"}, "simulated_environment": []string{"the caller: operation history, restart points, buffer reuse", "map iteration order in trie.keys() via the guarded hook"}, "stubbed": []string{}},
+		Runs:       map[string]int{"quick": 6000, "thorough": 400000},
+		Run:        RunC15,
+	},
+	"C18": {
+		Level: "fault_enumeration",
+		Rule: "A run draws one case: an iterator (Reader of a format under a delivery plan, in 60% with an injected read fault; File on plain / .gz / torn .gz / directory / missing path; PreOrder/PostOrder of a generated tree; trie ForEach with simulator-chosen child order; CanonicalSubsequences) and its environment, records the uninterrupted run x_0..x_{N-1}, then stops at EVERY position j in [0,N) in each of three consumer styles (direct call with a counting yield, for-range + break, iter.Pull + stop). " +
+			"distinct_nontrivial counts distinct cases with N >= 1 (by content hash of the case); evaluations counts iterator executions (1 + 3N per case).",
+		Assumptions: []string{
+			"the uninterrupted run in the same environment is the reference for 'leading items'",
+			"cases whose uninterrupted run hits the step cap (an iterator that never ends under a persistent failure) or panics are skipped and counted: termination is C07's clause, parser totality is C11's",
+			"for ForEach only 'j+1 distinct members of the full result' is required, even when the hook makes the order reproducible",
+			"an iterator that keeps reading (without calling back) after the consumer declined is not flagged: the property does not state it",
+		},
+		Components: map[string]any{"real": append([]string{"biostuff newick traversal, trie.ForEach, sequtil.CanonicalSubsequences"}, realCommon...), "simulated_environment": []string{"the consumer (stop position, style)", "io.Reader with delivery plan and fault", "storage configurations on the real file system", "map iteration order via the guarded hook"}, "stubbed": []string{}},
+		Runs:       map[string]int{"quick": 16000, "thorough": 800000},
+		Run:        RunC18,
+	},
 	"C07": {
 		Level: "fault_enumeration",
 		Rule: "A run draws one case from the run PRNG: (read) a format and a generated well-formed text whose fault-free decode is verified error-free, then EVERY fault offset 0..len x {error once then EOF, error forever} x {error alone, error with the last chunk} under one of three delivery plans; " +
